@@ -986,7 +986,35 @@ def m_nonlvalue_lhs(L, rng):
     return new, "left operand is not an lvalue: " + stmt
 
 
+def m_flexible_member(L, rng):
+    """a structure with a flexible array member as a member of a structure: directly, or inside a union nested
+    0..3 levels deep (6.7.2.1p3), as the last or as an inner member"""
+    blanks = [i for i, ln in enumerate(L) if ln == ""]
+    if not blanks:
+        return None
+    depth = rng.randrange(4)
+    et = rng.choice(["int", "char", "double", "short"])
+    out = ["struct c10_fx { %s c10_n; %s c10_a[]; };" % (rng.choice(["int", "long", "unsigned char"]), et)]
+    inner = "struct c10_fx"
+    for k in range(depth):
+        other = rng.choice(["int c10_o%d;" % k, "char c10_o%d[%d];" % (k, rng.choice([4, 16])), "double c10_o%d;" % k])
+        mem = ["%s c10_i%d;" % (inner, k), other]
+        rng.shuffle(mem)
+        if rng.random() < 0.3 and k + 1 < depth:
+            inner = "union { %s }" % " ".join(mem)          # anonymous union type used directly for the next member
+        else:
+            out.append("union c10_fu%d { %s };" % (k, " ".join(mem)))
+            inner = "union c10_fu%d" % k
+    mem = ["%s c10_m;" % inner] + ["int c10_t%d;" % j for j in range(rng.randrange(3))]
+    if rng.random() < 0.5:
+        rng.shuffle(mem)
+    out.append("struct c10_fs { int c10_id; %s };" % " ".join(mem))
+    k = blanks[0]
+    return L[:k] + out + L[k:], "flexible-array structure inside a structure through %d union level(s)" % depth
+
+
 MUTATORS = [
+    ("flexible-struct-member", m_flexible_member, [S("decl.c", "addmember", "struct member '%s' contains flexible array member")]),
     ("non-lvalue-left-operand", m_nonlvalue_lhs, [S("expr.c", "assignexpr", "left side of assignment expression is not an lvalue"),
                                                   S("expr.c", "mkincdecexpr", "operand of '%s' operator must be an lvalue")]),
     ("variadic-too-few-args", m_variadic_too_few, [S("expr.c", "postfixexpr", "not enough arguments for function call")]),
@@ -1233,6 +1261,10 @@ def run(ck):
         "6.5.3.2p1 `&` applied to an object declared `register`; 6.7.6.3p4/p10 in a function DECLARATION that is not a definition: `void f(void b);`, `void f(int, void);` accepted "
         "(a definition is rejected: decl.c \"parameter of function definition has incomplete type\"); "
         "6.8.6.1p1 goto into the scope of a variably modified identifier",
+        "6.7.2.1p3, array-element clause: a structure with a flexible array member (or a union containing one) as the element "
+        "type of an array: `struct F { int n; int a[]; }; struct F fa[2];` accepted, and through it `struct S { struct F fa[2]; };` "
+        "(an array type never carries the flexible mark; Lean: example after flexible_propagates); gcc and clang reject",
+        "6.3.2.1p1 assignment to a struct/union object that has a const-qualified member (`s1 = s2`) accepted",
         "6.7.2.2 `enum E : _Bool { A = 2 };` accepted (known finding C05 enum-bool-range; enum_value_accept_sound_counterexample)",
     ]
 
